@@ -12,14 +12,17 @@ Clauses of the statement -> checks
   (2) screen contents and cursor equal a reference VT100 (spec/vt100.py) on the statement's subset:
         C15/faithful-<family>    exhaustive token sequences per family (text, cursor, erase, insdel,
                                  region, sgr) + C15/faithful-mixed (seeded random, all families)
+        C15/faithful-canvas-cursor  the displayed cursor (TermCanvas.cursor) on the same cases
   (3) lines scrolled off the top are kept in order and shown when scrolled back:
         C15/scrollback-kept, C15/scrollback-view
 
-All histories go through `run_history` (robustness) or `faithful_case` (faithfulness), which `replay`
-re-executes from the JSON detail.  Exhaustive faithfulness enumerations are *pruned below a failing or
-ambiguous sequence* (extensions of a diverged history carry no new information), so `failures` holds
-minimal diverging sequences; at most MAX_PER_SIG are stored per signature (last token + aspect) and all
-are counted in the extra result key `failure_classes`.
+All histories go through `run_history` (robustness), `faithful_case` or `scrollback_case`, which
+`replay` re-executes from the JSON detail.  Exhaustive faithfulness enumerations are *pruned below a
+failing or ambiguous sequence* (extensions of a diverged history carry no new information), so
+`failures` holds minimal diverging sequences; at most MAX_PER_SIG are stored per signature (last token +
+differing aspect, or the broken invariant) and all are counted in the extra result key
+`failure_classes`.  Work is sharded over a fork pool; shards are merged in a fixed order, so the result
+is deterministic for a given (tier, seed).
 """
 from __future__ import annotations
 
@@ -40,6 +43,7 @@ from urwid.display import AttrSpec
 
 ESC = b"\x1b"
 MAX_PER_SIG = 2
+MAX_FAILURES = 20
 SIZES = [(1, 1), (2, 3), (5, 4)]  # (width, height) -- the sizes named in DESIGN.md
 
 
@@ -111,30 +115,63 @@ def make(w, h, focus=False):
     return tc, wd
 
 
+class Shard:
+    """Round-robin ownership of outer-loop work units."""
+
+    def __init__(self, i=0, n=1):
+        self.i, self.n, self.c = i, n, 0
+
+    def mine(self):
+        self.c += 1
+        return (self.c - 1) % self.n == self.i
+
+
 class SigCheck(Check):
     """Check that stores at most MAX_PER_SIG failures per signature and counts all of them."""
 
     def __init__(self, *a, **k):
         super().__init__(*a, **k)
         self.classes = {}
-        self.extra = {}
+        self.by_sig = {}  # sig -> stored details
+        self.counters = {}
 
     def case(self, key, ok, detail=None, nontrivial=True, sample=None, sig=None):
-        if ok or sig is None:
-            return super().case(key, ok, detail, nontrivial, sample)
-        n = self.classes.get(sig, 0)
-        self.classes[sig] = n + 1
-        if n < MAX_PER_SIG:
-            return super().case(key, ok, detail, nontrivial, sample)
         self.evaluations += 1
         if nontrivial:
             self.nontrivial.add(key)
-        return None
+        if len(self.samples) < 3 and sample is not None:
+            self.samples.append(sample)
+        if not ok:
+            sig = sig or "failure"
+            self.classes[sig] = self.classes.get(sig, 0) + 1
+            lst = self.by_sig.setdefault(sig, [])
+            if len(lst) < MAX_PER_SIG:
+                lst.append(detail if detail is not None else {"case": repr(key)})
+
+    def count(self, name, n=1):
+        self.counters[name] = self.counters.get(name, 0) + n
+
+    def absorb(self, other):
+        self.evaluations += other.evaluations
+        self.nontrivial |= other.nontrivial
+        self.samples = (self.samples + other.samples)[:3]
+        for sig, n in other.classes.items():
+            self.classes[sig] = self.classes.get(sig, 0) + n
+        for sig, lst in other.by_sig.items():
+            mine = self.by_sig.setdefault(sig, [])
+            mine.extend(lst[: MAX_PER_SIG - len(mine)])
+        for k, v in other.counters.items():
+            self.count(k, v)
+        self.t0 = min(self.t0, other.t0)
 
     def result(self):
+        # one failure of every signature first (most frequent signature first), then the second ones
+        order = sorted(self.by_sig, key=lambda s: (-self.classes[s], s))
+        self.failures = [self.by_sig[s][k] for k in range(MAX_PER_SIG) for s in order if len(self.by_sig[s]) > k][:MAX_FAILURES]
         r = super().result()
-        r["failure_classes"] = dict(sorted(self.classes.items(), key=lambda kv: -kv[1]))
-        r.update(self.extra)
+        r["failure_classes"] = {s: self.classes[s] for s in order}
+        r["failing_evaluations"] = sum(self.classes.values())
+        r.update(self.counters)
         return r
 
 
@@ -164,64 +201,80 @@ def reply_problem(reply):
     return f"malformed reply {s!r}"
 
 
+def _cell_ok(cell):
+    return isinstance(cell, tuple) and len(cell) == 3 and (cell[0] is None or isinstance(cell[0], AttrSpec)) and (cell[1] is None or isinstance(cell[1], str)) and isinstance(cell[2], bytes) and len(cell[2]) > 0
+
+
 def invariants(tc, wd, w, h):
-    """The grid invariant GI of the statement; returns a reason string or None."""
+    """The grid invariant GI of the statement.  Returns [(signature, reason), ...] (empty = holds).
+    May raise if content() raises (the caller reports that as an exception of the code under test)."""
+    out = []
     if (tc.width, tc.height) != (w, h) or (tc.cols(), tc.rows()) != (w, h):
-        return f"size is {tc.width}x{tc.height} (cols/rows {tc.cols()}x{tc.rows()}), expected {w}x{h}"
+        out.append(("size", f"size is {tc.width}x{tc.height} (cols/rows {tc.cols()}x{tc.rows()}), expected {w}x{h}"))
     if len(tc.term) != h:
-        return f"term has {len(tc.term)} rows, expected {h}"
+        out.append(("term rows", f"term has {len(tc.term)} rows, expected {h}"))
     for y, row in enumerate(tc.term):
         if len(row) != w:
-            return f"term row {y} has {len(row)} cells, expected {w}"
+            out.append(("term row width", f"term row {y} has {len(row)} cells, expected {w}"))
+            break
     rows = list(tc.content())
     if len(rows) != h:
-        return f"content() yields {len(rows)} rows, expected {h}"
+        out.append(("content rows", f"content() yields {len(rows)} rows, expected {h}"))
     for y, row in enumerate(rows):
         if len(row) != w:
-            return f"content() row {y} has {len(row)} cells, expected {w}"
-        for cell in row:
-            if not (isinstance(cell, tuple) and len(cell) == 3 and (cell[0] is None or isinstance(cell[0], AttrSpec)) and (cell[1] is None or isinstance(cell[1], str)) and isinstance(cell[2], bytes) and cell[2]):
-                return f"content() row {y} has a malformed cell {cell!r}"
+            out.append(("content row width", f"content() row {y} has {len(row)} cells, expected {w}"))
+            break
+        bad = [cell for cell in row if not _cell_ok(cell)]
+        if bad:
+            out.append(("cell", f"content() row {y} has a malformed cell {bad[0]!r}"))
+            break
     x, y = tc.term_cursor
     if not (0 <= x < w and 0 <= y < h):
-        return f"term_cursor {tc.term_cursor} outside {w}x{h}"
+        out.append(("term_cursor", f"term_cursor {tc.term_cursor} outside {w}x{h}"))
     cur = tc.cursor
     if cur is not None and not (0 <= cur[0] < w and 0 <= cur[1] < h):
-        return f"canvas cursor {cur} outside {w}x{h} (term_cursor {tc.term_cursor})"
+        out.append(("canvas cursor", f"canvas cursor {cur} outside {w}x{h} (term_cursor {tc.term_cursor})"))
     if not (0 <= tc.scrollregion_start <= tc.scrollregion_end <= h - 1):
-        return f"scrolling region [{tc.scrollregion_start},{tc.scrollregion_end}] not inside 0..{h - 1}"
+        out.append(("scrolling region", f"scrolling region [{tc.scrollregion_start},{tc.scrollregion_end}] not inside 0..{h - 1}"))
     if not (0 <= tc.scrolling_up <= len(tc.scrollback_buffer)):
-        return f"scrolling_up {tc.scrolling_up} outside 0..{len(tc.scrollback_buffer)}"
+        out.append(("scrolling_up", f"scrolling_up {tc.scrolling_up} outside 0..{len(tc.scrollback_buffer)}"))
     for rep in wd.replies:
         p = reply_problem(rep)
         if p:
-            return p
+            out.append(("reply", p))
+            break
     for t in wd.titles:
         if not isinstance(t, str):
-            return f"title {t!r} is not str"
-    return None
+            out.append(("title", f"title {t!r} is not str"))
+            break
+    return out
 
 
 def tail_bytes(h):
-    """Probe appended to histories: leave any sequence (CAN), ask for the cursor position, then scroll
-    forwards and backwards through the whole screen and tab, so latent bad state surfaces."""
+    """Probe appended to histories: leave any sequence (CAN), ask for the cursor position and status,
+    then scroll forwards and backwards through the whole screen and tab, so latent bad state surfaces."""
     return b"\x18" + ESC + b"[6n" + ESC + b"[5n" + b"ab\r\n" * (h + 1) + (ESC + b"M") * (h + 1) + b"\tz"
 
 
 def run_history(enc, size, focus, ops, timeout=2.0):
-    """Execute ops on a fresh TermCanvas; returns (why | None, step index)."""
+    """Execute ops on a fresh TermCanvas, checking GI after every op.  Returns [(sig, why), ...]:
+    every distinct broken invariant (first occurrence), and/or the exception/hang that ended the run."""
+    found = {}
+
+    def note(where, probs):
+        for sig, why in probs:
+            found.setdefault(sig, f"{where}: {why}")
+
     with encoding(enc):
         w, h = size
         try:
             with guard(timeout):
                 tc, wd = make(w, h, focus)
+                note("initially", invariants(tc, wd, w, h))
         except _Hang:
-            return f"constructor did not return within {timeout}s", -1
+            return [("hang", f"constructor did not return within {timeout}s")]
         except Exception as e:  # noqa: BLE001
-            return f"constructor raised {type(e).__name__}: {e}", -1
-        why = invariants(tc, wd, w, h)
-        if why:
-            return f"initially: {why}", -1
+            return [(f"raised {type(e).__name__}", f"constructor raised {type(e).__name__}: {e}")]
         for i, op in enumerate(ops):
             try:
                 with guard(timeout):
@@ -241,14 +294,14 @@ def run_history(enc, size, focus, ops, timeout=2.0):
                         tc.addstr(tail_bytes(h))
                     else:
                         raise AssertionError(op)
-                    why = invariants(tc, wd, w, h)
+                    note(f"after op {i} {_op_json(op)}", invariants(tc, wd, w, h))
             except _Hang:
-                return f"op {i} {_op_json(op)} did not return within {timeout}s", i
+                found.setdefault("hang", f"op {i} {_op_json(op)} did not return within {timeout}s")
+                break
             except Exception as e:  # noqa: BLE001
-                return f"op {i} {_op_json(op)} raised {type(e).__name__}: {e}", i
-            if why:
-                return f"after op {i} {_op_json(op)}: {why}", i
-    return None, len(ops)
+                found.setdefault(f"raised {type(e).__name__}", f"op {i} {_op_json(op)} raised {type(e).__name__}: {e}")
+                break
+    return list(found.items())
 
 
 def _op_json(op):
@@ -261,46 +314,35 @@ def _op_unjson(op):
     return tuple(op)
 
 
-def _hist_detail(enc, size, focus, ops, why, timeout=2.0):
+def _hist_detail(enc, size, focus, ops, probs, timeout):
     py = ["from urwid import vterm, util", f"util.set_encoding({enc!r})", "class W:", "    term_modes = vterm.TermModes(); respond = set_title = leds = staticmethod(print); beep = staticmethod(lambda: None)", f"t = vterm.TermCanvas({size[0]}, {size[1]}, W())"]
     if focus:
         py.append("t.has_focus = True")
+    show = "; print((t.width, t.height), len(t.term), [len(r) for r in t.content()], t.term_cursor, t.cursor, (t.scrollregion_start, t.scrollregion_end))"
     cur_h = size[1]
     for op in ops:
         if op[0] in ("feed", "feed1"):
-            py.append(f"t.addstr({op[1]!r})")
+            py.append(f"t.addstr({op[1]!r})" + show)
         elif op[0] == "resize":
-            py.append(f"t.resize({op[1]}, {op[2]})")
+            py.append(f"t.resize({op[1]}, {op[2]})" + show)
             cur_h = op[2]
         elif op[0] == "view":
-            py.append(f"t.scroll_buffer(up={op[1]}, lines={op[2]})")
+            py.append(f"t.scroll_buffer(up={op[1]}, lines={op[2]})" + show)
         elif op[0] == "view_reset":
-            py.append("t.scroll_buffer(reset=True)")
+            py.append("t.scroll_buffer(reset=True)" + show)
         elif op[0] == "tail":
-            py.append(f"t.addstr({tail_bytes(cur_h)!r})")
-    py.append("print(len(t.term), [len(r) for r in t.content()], t.term_cursor, t.cursor)")
-    return {"enc": enc, "size": list(size), "focus": focus, "ops": [_op_json(o) for o in ops], "timeout": timeout, "why": why, "python": py}
-
-
-def _why_sig(why):
-    """Coarse signature of a robustness failure: the exception type or the invariant that broke."""
-    m = re.search(r"raised (\w+)", why)
-    if m:
-        return "raised " + m.group(1)
-    if "did not return" in why:
-        return "hang"
-    for k in ("canvas cursor", "term_cursor", "scrolling region", "content()", "term row", "term has", "reply", "cursor position report", "scrolling_up", "size is", "title"):
-        if k in why:
-            return k
-    return why[:40]
+            py.append(f"t.addstr({tail_bytes(cur_h)!r})" + show)
+    return {"enc": enc, "size": list(size), "focus": focus, "ops": [_op_json(o) for o in ops], "timeout": timeout, "sig": " + ".join(sorted(s for s, _ in probs)), "why": "; ".join(wy for _, wy in probs), "python": py}
 
 
 def _eval_history(chk, key, enc, size, focus, ops, timeout=2.0, extra_sig=""):
-    why, _ = run_history(enc, size, focus, ops, timeout)
-    if why is None:
+    probs = run_history(enc, size, focus, ops, timeout)
+    if not probs:
         chk.case(key, True, None, True, sample={"enc": enc, "size": list(size), "ops": [_op_json(o) for o in ops]})
     else:
-        chk.case(key, False, _hist_detail(enc, size, focus, ops, why, timeout), True, sig=(extra_sig + _why_sig(why)))
+        d = _hist_detail(enc, size, focus, ops, probs, timeout)
+        d["sig"] = extra_sig + d["sig"]
+        chk.case(key, False, d, True, sig=d["sig"])
 
 
 # 24 representative bytes: C0 (BS HT LF CR BEL CAN), ESC, C1 CSI, '[' ']' '?' ';', digits 0 1 6,
@@ -312,16 +354,15 @@ BYTE_CONTEXTS = [b"", ESC + b"[", ESC + b"]"]  # ground / inside a CSI / inside 
 def _resize_variants(n, size):
     """Histories for a string of n bytes starting at `size`: plain, byte-wise chunked, and a resize to
     each other size before byte k for every k in 0..n (k = n: after the string)."""
-    yield [("whole",)]
-    yield [("bytewise",)]
+    out = [("whole",), ("bytewise",)]
     for k in range(n + 1):
         for tgt in SIZES:
             if tgt != size:
-                yield [("split", k, tgt)]
+                out.append(("split", k, tgt))
+    return out
 
 
-def _bytes_history(ctx, s, variant):
-    v = variant[0]
+def _bytes_history(ctx, s, v):
     ops = [("feed", ctx)] if ctx else []
     if v[0] == "whole":
         ops.append(("feed", s))
@@ -338,27 +379,30 @@ def _bytes_history(ctx, s, variant):
     return ops
 
 
-def check_robust_bytes(tier, r):
+def check_robust_bytes(tier, seed, sh):
     quick = tier == "quick"
+    r = rng(seed)
     encs = ["utf8", "ascii"]
     maxlen = 2 if quick else 3
-    chk = SigCheck("C15/robust-bytes", "fresh TermCanvas (focused) x context prefix (ground, inside CSI, inside OSC) x every byte string over 24 representative bytes x {whole, byte-wise feeds, resize to each other size before byte k} x encodings, then a probe tail (CAN, CPR+DSR query, scroll through, reverse index, tab): no exception, GI after every step, well-formed replies", True, f"24-byte alphabet, strings of length <= {maxlen}" + (" + 1200 sampled strings of length 3" if quick else "") + f", sizes {SIZES}, encodings {encs}")
-    strings = [bytes(t) for L in range(0, maxlen + 1) for t in itertools.product(ALPHABET, repeat=L)]
+    nsample = 800
+    chk = SigCheck("C15/robust-bytes", "fresh focused TermCanvas x context prefix (ground, inside CSI, inside OSC) x every byte string over 24 representative bytes x {whole, byte-wise feeds, resize to each other size before byte k for every k} x encodings, then a probe tail (CAN, CPR+DSR query, scroll through, reverse index, tab): no exception, GI after every step, well-formed replies", not quick, f"24-byte alphabet, strings of length <= {maxlen}" + (f" + {nsample} sampled strings of length 3 with one sampled variant each" if quick else "") + f", sizes {SIZES}, encodings {encs}" + (" (ascii only from the ground context in the quick tier)" if quick else ""))
+    strings = [(bytes(t), None) for L in range(maxlen + 1) for t in itertools.product(ALPHABET, repeat=L)]
     if quick:
-        strings += [bytes(r.choice(ALPHABET) for _ in range(3)) for _ in range(1200)]
-        chk.exhaustive = False
-    for s in strings:
-        sampled = quick and len(s) == 3
+        strings += [(bytes(r.choice(ALPHABET) for _ in range(3)), r.randrange(10)) for _ in range(nsample)]
+    for s, pick in strings:
+        if not sh.mine():
+            continue
         for enc in encs:
             for size in SIZES:
                 for ctx in BYTE_CONTEXTS:
-                    variants = list(_resize_variants(len(s), size))
-                    if sampled:
-                        variants = [variants[r.randrange(len(variants))]]
-                    for variant in variants:
-                        ops = _bytes_history(ctx, s, variant)
-                        _eval_history(chk, (enc, size, ctx, s, variant[0]), enc, size, True, ops)
-    return chk
+                    if quick and enc != "utf8" and ctx:
+                        continue
+                    variants = _resize_variants(len(s), size)
+                    if pick is not None:
+                        variants = [variants[pick % len(variants)]]
+                    for v in variants:
+                        _eval_history(chk, (enc, size, ctx, s, v), enc, size, True, _bytes_history(ctx, s, v))
+    return [chk]
 
 
 CSI_FINALS = [bytes([b]) for b in range(0x40, 0x7F)]
@@ -375,29 +419,31 @@ MODE_CONTEXTS = [
 ]
 
 
-def _param_lists(w, h):
-    singles = ["", "0", "1", str(w), str(h), str(max(w, h) + 1), "70000"]
-    singles = list(dict.fromkeys(singles))
-    pair_vals = ["", "0", "1", str(h), str(max(w, h) + 1), "70000"]
-    pair_vals = list(dict.fromkeys(pair_vals))
-    return singles + [f"{a};{b}" for a in pair_vals for b in pair_vals] + ["1;2;3", ";;", "5;6;7;25;2004;1;3;4;20"]
+def _param_lists(w, h, quick):
+    singles = list(dict.fromkeys(["", "0", "1", str(w), str(h), str(max(w, h) + 1), "70000"]))
+    pv = list(dict.fromkeys(["", "0", "1", str(h), str(max(w, h) + 1), "70000"]))
+    if quick:
+        pv = list(dict.fromkeys(["", "1", str(max(w, h) + 1), "70000"]))
+    return singles + [f"{a};{b}" for a in pv for b in pv] + ["1;2;3", ";;", "5;6;7;25;2004;1;3;4;20"]
 
 
 SGR_LISTS = ["", "0", "1", "7", "31", "42", "91", "104", "39;49", "1;31", "38;5;0", "38;5;15", "38;5;16", "38;5;255", "38;5;256", "48;5;70000", "38;2;1;2;3", "48;2;255;255;255", "38;2;256;0;0", "38;2;70000;70000;70000", "38;5", "38;2;1", "38", "48", "10", "11", "12", "0;1;4;5;7;31;42", "24;25;27"]
 
 
-def check_robust_csi(tier, r):
+def check_robust_csi(tier, seed, sh):
     quick = tier == "quick"
     encs = ["utf8"] if quick else ["utf8", "ascii"]
     sizes = SIZES if quick else [*SIZES, (9, 2)]
     ctxs = [MODE_CONTEXTS[i] for i in (0, 3, 4, 6)] if quick else MODE_CONTEXTS
-    chk = SigCheck("C15/robust-csi-params", "mode context x CSI [?] params final for every final byte 0x40..0x7e and parameter lists over {missing, 0, 1, width, height, size+1, 70000} (singles, pairs, longer) x ESC[ and the C1 CSI introducer, then a resize and the probe tail; plus pairs of SGR parameter lists: no exception, GI, well-formed replies", True, f"finals 0x40..0x7e, sizes {sizes}, {len(ctxs)} mode contexts, encodings {encs}")
+    chk = SigCheck("C15/robust-csi-params", "mode context x CSI [?] params final for every final byte 0x40..0x7e and parameter lists over {missing, 0, 1, width, height, size+1, 70000} (singles, pairs, longer) with ESC[ and with the C1 introducer, then a resize and the probe tail; plus pairs of SGR parameter lists (colours in/out of range, truncated extended colours, styles, charset mapping) around text and an erase: no exception, GI, well-formed replies", True, f"finals 0x40..0x7e, sizes {sizes}, {len(ctxs)} mode contexts, encodings {encs}, {len(SGR_LISTS)}^2 SGR pairs")
     for enc in encs:
         for si, size in enumerate(sizes):
             other = sizes[(si + 1) % len(sizes)]
-            plists = _param_lists(*size)
+            plists = _param_lists(*size, quick)
             for ctx in ctxs:
                 for final in CSI_FINALS:
+                    if not sh.mine():
+                        continue
                     for q in (b"", b"?"):
                         for p in plists:
                             seq = ESC + b"[" + q + p.encode() + final
@@ -405,32 +451,39 @@ def check_robust_csi(tier, r):
                             _eval_history(chk, (enc, size, ctx, seq), enc, size, True, ops)
             # C1 introducer (only meaningful when bytes >= 0x80 are not UTF-8 assembled)
             for final in CSI_FINALS:
+                if not sh.mine():
+                    continue
                 for p in ("", "0", str(max(size) + 1), "70000;70000"):
                     seq = b"\x9b" + p.encode() + final
                     _eval_history(chk, (enc, size, "c1", seq), enc, size, True, [("feed", seq), ("tail",)])
         for a in SGR_LISTS:
+            if not sh.mine():
+                continue
             for b in SGR_LISTS:
                 seq = ESC + b"[" + a.encode() + b"mx" + ESC + b"[" + b.encode() + b"my" + ESC + b"[J"
                 _eval_history(chk, (enc, "sgr", seq), enc, (5, 4), True, [("feed", seq), ("resize", 2, 3), ("tail",)])
                 if not quick:
                     seq2 = ESC + b"[?5h" + seq + ESC + b"[?5l"
                     _eval_history(chk, (enc, "sgr-rv", seq2), enc, (5, 4), True, [("feed", seq2), ("tail",)])
-    return chk
+    return [chk]
 
 
-def check_robust_huge(tier, r):
+def check_robust_huge(tier, seed, sh):
     timeout = 0.25 if tier == "quick" else 1.0
-    chk = SigCheck("C15/robust-huge-params", f"CSI with a 10^9 parameter for every final byte 0x40..0x7e: must not raise and must return within {timeout}s (the statement quantifies over huge parameters; a hosted program must not be able to freeze the UI)", True, f"finals 0x40..0x7e x params {{1e9, 1;1e9, 1e9;1e9}} x sizes {SIZES[1:]}, timeout {timeout}s")
+    sizes = SIZES[1:2] if tier == "quick" else SIZES[1:]
+    chk = SigCheck("C15/robust-huge-params", f"CSI with a 10^9 parameter for every final byte 0x40..0x7e: must not raise, must keep GI and must return within {timeout}s (the statement quantifies over huge parameters and the emulator has to 'survive' them: a hosted program must not be able to freeze the UI)", True, f"finals 0x40..0x7e x params {{1e9, 1;1e9, 1e9;1e9}} x sizes {sizes}, timeout {timeout}s")
     big = b"1000000000"
-    for size in SIZES[1:]:
+    for size in sizes:
         for final in CSI_FINALS:
+            if not sh.mine():
+                continue
             for p in (big, b"1;" + big, big + b";" + big):
                 seq = ESC + b"[" + p + final
-                _eval_history(chk, (size, seq), "utf8", size, True, [("feed", seq), ("tail",)], timeout=timeout, extra_sig=f"CSI {final.decode()} ")
-    return chk
+                _eval_history(chk, (size, seq), "utf8", size, True, [("feed", seq), ("tail",)], timeout=timeout, extra_sig=f"CSI {final.decode()}: ")
+    return [chk]
 
 
-def check_robust_osc(tier, r):
+def check_robust_osc(tier, seed, sh):
     quick = tier == "quick"
     encs = ["utf8", "ascii"] if quick else ["utf8", "utf-8", "ascii", "iso8859-1"]
     pay = [0x61, 0x3B, 0x30, 0x50, 0x52, 0x5C, 0xC3, 0xA9, 0xFF, 0x80, 0x1B, 0x0A]
@@ -442,13 +495,15 @@ def check_robust_osc(tier, r):
         for pre in prefixes:
             for L in range(maxlen + 1):
                 for t in itertools.product(pay, repeat=L):
+                    if not sh.mine():
+                        continue
                     for term in terms:
                         seq = ESC + b"]" + pre + bytes(t) + term
                         _eval_history(chk, (enc, seq), enc, (5, 4), True, [("feed", seq), ("tail",)])
-    return chk
+    return [chk]
 
 
-def check_robust_charset(tier, r):
+def check_robust_charset(tier, seed, sh):
     quick = tier == "quick"
     encs = ["utf8", "ascii"] if quick else ["utf8", "utf-8", "ascii", "iso8859-1"]
     pay = [0x41, 0x60, 0x7E, 0x80, 0x9B, 0xA9, 0xBF, 0xC0, 0xC3, 0xE2, 0xED, 0xF0, 0xF8, 0xFF]
@@ -458,23 +513,27 @@ def check_robust_charset(tier, r):
     chk = SigCheck("C15/robust-charset-utf8", "charset designation (G0/G1 vt100, ibmpc, user, UTF-8 on/off, SGR 11/12, DECALN, junk designators) x shift (none, SO, SI) x payload byte strings over 14 bytes (ASCII incl. DEC-special '`', C1, UTF-8 lead/continuation bytes, overlong/invalid leads 0xc0 0xf8 0xff, surrogate lead 0xed) at size 2x3, then the probe tail: no exception, GI (every cell holds non-empty bytes)", True, f"payload length <= {maxlen}, {len(designations)} designations, {len(shifts)} shifts, encodings {encs}")
     for enc in encs:
         for des in designations:
-            for sh in shifts:
+            for shf in shifts:
                 for L in range(1, maxlen + 1):
                     for t in itertools.product(pay, repeat=L):
-                        seq = des + sh + bytes(t)
+                        if not sh.mine():
+                            continue
+                        seq = des + shf + bytes(t)
                         _eval_history(chk, (enc, seq), enc, (2, 3), True, [("feed", seq), ("tail",)])
-    return chk
+    return [chk]
 
 
-def check_view_shape(tier, r):
+def check_view_shape(tier, seed, sh):
     quick = tier == "quick"
-    chk = SigCheck("C15/robust-view-shape", "fill n lines (so n-h+1 scroll off), scroll the view back k lines, optionally resize (width and/or height) before or after scrolling back, optionally feed more output: content() still yields exactly height rows of width cells, cursor None or inside, scrolling_up within the scrollback", True, "sizes 2x3 and 5x4, up to h+3 lines, k <= 4, resize targets {1x1,2x3,5x4,3x3,7x2}")
+    chk = SigCheck("C15/robust-view-shape", "fill n lines (so n-h+1 scroll off), scroll the view back k lines, optionally resize (width and/or height) before or after scrolling back, optionally feed more output, then page up / one line down / reset: content() always yields exactly height rows of width cells without raising, cursor None or inside, scrolling_up within the scrollback", True, "sizes 2x3 and 5x4, up to h+3 lines, k <= 4, resize targets {none,1x1,2x3,5x4,3x3,7x2}")
     targets = [None, (1, 1), (2, 3), (5, 4), (3, 3), (7, 2)]
     for size in [(2, 3), (5, 4)]:
-        w, h = size
-        for n in range(0, h + 4):
+        h = size[1]
+        for n in range(h + 4):
             fill = b"".join(b"%d\r\n" % (i % 10) for i in range(n))
-            for k in range(0, 5):
+            for k in range(5):
+                if not sh.mine():
+                    continue
                 for tgt in targets:
                     if tgt == size:
                         continue
@@ -490,12 +549,13 @@ def check_view_shape(tier, r):
                                 ops.append(("feed", more))
                             ops += [("view", True, None), ("view", False, 1), ("view_reset",)]
                             _eval_history(chk, (size, n, k, tgt, order, more), "utf8", size, True, ops)
-    return chk
+    return [chk]
 
 
 # --------------------------------------------------------------------------------------------------
 # (2) faithfulness against spec.vt100.VT100
 def _colour(a, which):
+    """Decode an AttrSpec colour to None (default) | ('idx', palette index) | ('rgb', 0xRRGGBB)."""
     if a is None:
         return None
     if which == "fg":
@@ -518,15 +578,13 @@ def _styles(a):
 
 
 def observe_real(tc, wd):
-    rows = []
-    for row in tc.content():
-        rows.append([(cell[2].decode("latin-1"), _colour(cell[0], "fg"), _colour(cell[0], "bg"), cell[1], _styles(cell[0])) for cell in row])
-    return rows, tuple(tc.term_cursor), [rp[0] for rp in wd.replies]
+    rows = [[(cell[2].decode("latin-1"), _colour(cell[0], "fg"), _colour(cell[0], "bg"), cell[1], _styles(cell[0])) for cell in row] for row in tc.content()]
+    return rows, tuple(tc.term_cursor), [rp[0] for rp in wd.replies], tc.cursor
 
 
 def diff(real, ref):
     """None if the real screen, cursor and replies equal the reference's; else (aspect, text)."""
-    rows, cur, replies = real
+    rows, cur, replies = real[:3]
     want = ref.rows()
     if len(rows) != ref.h or any(len(rw) != ref.w for rw in rows):
         return "shape", f"screen is not {ref.w}x{ref.h}"
@@ -542,7 +600,7 @@ def diff(real, ref):
                 return "style", f"cell (col {x}, row {y}) carries styles {st} although only colours were selected"
             if bg != wbg:
                 return "bg", f"cell (col {x}, row {y}) {ch!r} has background {bg}, reference {wbg}"
-            if wfg is not ANY and fg != wfg:
+            if wfg is not ANY and fg != wfg:  # erased blanks: the foreground is not constrained
                 return "fg", f"cell (col {x}, row {y}) {ch!r} has foreground {fg}, reference {wfg}"
     if cur != ref.cursor():
         return "cursor", f"cursor (col,row) is {cur}, reference {ref.cursor()}"
@@ -580,6 +638,7 @@ def faithful_case(size, setup, toks):
         except Exception as e:  # noqa: BLE001
             return "fail", base | {"aspect": "raised", "why": f"raised {type(e).__name__}: {e}"}
     d = diff(real, ref)
+    base["canvas_cursor"] = list(real[3]) if real[3] is not None else None
     if d is None:
         return "ok", base
     return "fail", base | {"aspect": d[0], "why": d[1], "got_screen": _dump(real[0]), "got_cursor": list(real[1])}
@@ -590,14 +649,15 @@ def csi(s):
 
 
 def fill_setup(w, h):
-    """Fill the screen with distinct letters row by row using only CUP + text, cursor ends at home."""
+    """Fill the screen with distinct letters using only CUP + text (both checked on their own by the
+    text and cursor families).  Rows are written bottom-up and the last thing printed is the first cell
+    of row 1, i.e. a character that does not end in the last column (when width > 1), followed by CUP
+    home: the setup itself never leaves a last-column (wrap-pending) state behind, so a family is not
+    polluted by how the emulator handles that state across CUP (the cursor family tests that)."""
     out = b""
-    k = 0
-    for y in range(h):
-        out += csi(f"{y + 1};1H")
-        out += bytes(0x61 + (k + i) % 26 for i in range(w))
-        k += w
-    return out + csi("H")
+    for y in reversed(range(h)):
+        out += csi(f"{y + 1};1H") + bytes(0x61 + (y * w + i) % 26 for i in range(w))
+    return out + csi("H") + b"a" + csi("H")
 
 
 def families(tier):
@@ -606,78 +666,109 @@ def families(tier):
     cursor = [("x", b"x"), ("CUP()", csi("H")), ("CUP(2,2)", csi("2;2H")), ("CUP(9,9)", csi("9;9H")), ("CUP(,3)", csi(";3H")), ("CUP(0,0)", csi("0;0H")), ("CUU", csi("A")), ("CUD(2)", csi("2B")), ("CUF", csi("C")), ("CUF(9)", csi("9C")), ("CUB(2)", csi("2D")), ("CR", b"\r"), ("LF", b"\n"), ("CPR?", csi("6n"))]
     erase = [("CUP()", csi("H")), ("CUP(2,2)", csi("2;2H")), ("CUP(9,9)", csi("9;9H")), ("CUP(1,9)", csi("1;9H")), ("ED0", csi("J")), ("ED1", csi("1J")), ("ED2", csi("2J")), ("EL0", csi("0K")), ("EL1", csi("1K")), ("EL2", csi("2K")), ("x", b"x"), ("SGR41", csi("41m")), ("SGR0", csi("m"))]
     insdel = [("CUP()", csi("H")), ("CUP(2,2)", csi("2;2H")), ("CUP(9,9)", csi("9;9H")), ("ICH", csi("@")), ("ICH(2)", csi("2@")), ("ICH(9)", csi("9@")), ("DCH", csi("P")), ("DCH(2)", csi("2P")), ("DCH(9)", csi("9P")), ("IL", csi("L")), ("IL(2)", csi("2L")), ("IL(9)", csi("9L")), ("DL", csi("M")), ("DL(2)", csi("2M")), ("DL(9)", csi("9M")), ("x", b"x"), ("SGR44", csi("44m"))]
-    region = [("STBM(2,3)", csi("2;3r")), ("STBM()", csi("r")), ("STBM(1,2)", csi("1;2r")), ("STBM(3,3)", csi("3;3r")), ("STBM(3,2)", csi("3;2r")), ("STBM(2,)", csi("2r")), ("CUP()", csi("H")), ("CUP(2,1)", csi("2;1H")), ("CUP(3,9)", csi("3;9H")), ("CUP(9,1)", csi("9;1H")), ("LF", b"\n"), ("RI", ESC + b"M"), ("IND", ESC + b"D"), ("NEL", ESC + b"E"), ("x", b"x"), ("IL", csi("L")), ("DL", csi("M")), ("CUU(9)", csi("9A")), ("CUD(9)", csi("9B"))]
+    region = [("STBM(2,3)", csi("2;3r")), ("STBM()", csi("r")), ("STBM(1,2)", csi("1;2r")), ("STBM(3,3)", csi("3;3r")), ("STBM(3,2)", csi("3;2r")), ("STBM(2,)", csi("2r")), ("CUP()", csi("H")), ("CUP(2,1)", csi("2;1H")), ("CUP(3,9)", csi("3;9H")), ("CUP(9,1)", csi("9;1H")), ("CUP(9,9)", csi("9;9H")), ("LF", b"\n"), ("RI", ESC + b"M"), ("IND", ESC + b"D"), ("NEL", ESC + b"E"), ("x", b"x"), ("IL", csi("L")), ("DL", csi("M")), ("CUU(9)", csi("9A")), ("CUD(9)", csi("9B"))]
     sgr = [("SGR31", csi("31m")), ("SGR42", csi("42m")), ("SGR39", csi("39m")), ("SGR49", csi("49m")), ("SGR0", csi("0m")), ("SGR()", csi("m")), ("SGR91", csi("91m")), ("SGR104", csi("104m")), ("SGR38;5;200", csi("38;5;200m")), ("SGR48;5;1", csi("48;5;1m")), ("SGR31;42", csi("31;42m")), ("SGR0;34", csi("0;34m")), ("SGR38;2;1;2;3", csi("38;2;1;2;3m")), ("x", b"x"), ("EL2", csi("2K")), ("LF", b"\n")]
     return {
         # name: (tokens, [(size, filled?, maxlen)...])
-        "text": (text, [((1, 1), False, 4 if q else 6), ((2, 3), False, 5 if q else 7), ((5, 4), False, 4 if q else 6), ((10, 2), False, 4 if q else 6)]),
-        "cursor": (cursor, [((2, 3), False, 3 if q else 4), ((5, 4), False, 3 if q else 4), ((1, 1), False, 3)]),
+        "text": (text, [((1, 1), False, 5 if q else 6), ((2, 3), False, 6 if q else 7), ((5, 4), False, 5 if q else 7), ((10, 2), False, 5 if q else 6)]),
+        "cursor": (cursor, [((2, 3), False, 4), ((5, 4), False, 3 if q else 4), ((1, 1), False, 3 if q else 4)]),
         "erase": (erase, [((2, 3), True, 3 if q else 4), ((5, 4), True, 3 if q else 4)]),
-        "insdel": (insdel, [((2, 3), True, 2 if q else 3), ((5, 4), True, 3 if q else 4)]),
-        "region": (region, [((5, 4), True, 3 if q else 4), ((2, 3), True, 2 if q else 4)]),
+        "insdel": (insdel, [((2, 3), True, 3 if q else 4), ((5, 4), True, 3 if q else 4)]),
+        "region": (region, [((5, 4), True, 4), ((2, 3), True, 3 if q else 4)]),
         "sgr": (sgr, [((3, 2), False, 3 if q else 4)]),
     }
 
 
-def check_faithful_family(name, tokens, scopes):
-    chk = SigCheck(f"C15/faithful-{name}", f"every sequence of tokens {[t[0] for t in tokens]} up to the length bound, fed to a fresh focused TermCanvas (after a screen-filling setup where noted) and to the reference VT100: equal characters, colours (erased blanks: background only), cursor and replies; sequences extending a diverged or ambiguous one are pruned", True, "; ".join(f"{s[0]}x{s[1]}{' filled' if f else ''} len<={L}" for s, f, L in scopes))
-    pruned = ambiguous = 0
+def _canvas_cursor_check():
+    return SigCheck("C15/faithful-canvas-cursor", "on every faithful-* case whose characters, colours and term_cursor agree with the reference (terminal focused, cursor visible, view not scrolled back): the canvas cursor that the screen will display, TermCanvas.cursor, is the reference cursor position (kept apart from the families so that it does not prune them)", True, "the cases of all faithful-* families and of faithful-mixed")
+
+
+def _canvas_cursor_case(cc, key, names, detail):
+    want = detail["expected_cursor"]
+    got = detail["canvas_cursor"]
+    if got == want:
+        cc.case(key, True, None, True, sample={"size": detail["size"], "tokens": names})
+    else:
+        d = dict(detail)
+        d["python"] = [*detail["python"][:4], "t.has_focus = True", detail["python"][4], "print(t.cursor, t.term_cursor)"]
+        w, h = detail["size"]
+        kind = "missing (None)" if got is None else ("inside but wrong" if 0 <= got[0] < w and 0 <= got[1] < h else "outside the canvas")
+        d.update({"token_names": names, "aspect": "canvas-cursor", "sig": f"canvas-cursor {kind}", "why": f"canvas cursor is {got}, reference cursor (col,row) {want} (term_cursor agrees with the reference)"})
+        cc.case(key, False, d, True, sig=d["sig"])
+
+
+def check_faithful_family(tier, seed, sh, name):
+    tokens, scopes = families(tier)[name]
+    chk = SigCheck(f"C15/faithful-{name}", f"every sequence of tokens {[t[0] for t in tokens]} up to the length bound, fed to a fresh focused TermCanvas (after a screen-filling setup where noted) and to the reference VT100: equal characters, colours (erased blanks: background only), no stray charset/style, equal cursor and replies; sequences extending a diverged or ambiguous one are pruned", True, "; ".join(f"{s[0]}x{s[1]}{' filled' if f else ''} len<={L}" for s, f, L in scopes))
+    cc = _canvas_cursor_check()
     for size, filled, maxlen in scopes:
         setup = fill_setup(*size) if filled else b""
-        bad = set()
-        for L in range(1, maxlen + 1):
-            for seq in itertools.product(range(len(tokens)), repeat=L):
-                if any(seq[:k] in bad for k in range(1, L)):
-                    pruned += 1
-                    continue
-                status, detail = faithful_case(size, setup, [tokens[i][1] for i in seq])
-                names = [tokens[i][0] for i in seq]
-                if status == "ok":
-                    chk.case((size, seq), True, None, True, sample={"size": list(size), "tokens": names})
-                elif status == "fail":
-                    bad.add(seq)
-                    detail["token_names"] = names
-                    detail["family"] = name
-                    detail["sig"] = f"{names[-1]}:{detail['aspect']}"
-                    chk.case((size, seq), False, detail, True, sig=detail["sig"])
-                else:
-                    bad.add(seq)
-                    ambiguous += 1
-    chk.extra = {"pruned_extensions": pruned, "ambiguous_or_out_of_subset": ambiguous}
-    return chk
+        for first in range(len(tokens)):
+            if not sh.mine():
+                continue
+            bad = set()
+            for L in range(1, maxlen + 1):
+                for rest in itertools.product(range(len(tokens)), repeat=L - 1):
+                    seq = (first, *rest)
+                    if any(seq[:k] in bad for k in range(1, L)):
+                        chk.count("pruned_extensions")
+                        continue
+                    status, detail = faithful_case(size, setup, [tokens[i][1] for i in seq])
+                    names = [tokens[i][0] for i in seq]
+                    if status == "ok":
+                        chk.case((size, seq), True, None, True, sample={"size": list(size), "tokens": names})
+                        _canvas_cursor_case(cc, (name, size, bytes(seq)), names, detail)
+                    elif status == "fail":
+                        bad.add(seq)
+                        detail["token_names"] = names
+                        detail["family"] = name
+                        detail["sig"] = f"{names[-1]}:{detail['aspect']}"
+                        chk.case((size, seq), False, detail, True, sig=detail["sig"])
+                    else:
+                        bad.add(seq)
+                        chk.count("ambiguous_or_out_of_subset")
+    return [chk, cc]
 
 
-def check_faithful_mixed(tier, r, fams):
+def check_faithful_mixed(tier, seed, sh):
     q = tier == "quick"
-    n = 2500 if q else 60000
+    r = rng(seed)
+    n = 3000 if q else 60000
     maxlen = 6 if q else 10
     toks = {}
-    for tokens, _ in fams.values():
+    for tokens, _ in families(tier).values():
         for nm, b in tokens:
             toks[nm] = b
     toks = sorted(toks.items())
     sizes = [(1, 1), (2, 3), (3, 2), (5, 4), (10, 3)]
-    chk = SigCheck("C15/faithful-mixed", "seeded random token sequences over the union of all family alphabets at random sizes, filled or empty start; compared with the reference after every token, stopping at the first divergence or ambiguity", False, f"{n} sequences of length <= {maxlen}, sizes {sizes}")
+    chk = SigCheck("C15/faithful-mixed", "seeded random token sequences over the union of all family alphabets at random sizes, filled or empty start; compared with the reference after every token, stopping at the first divergence (failure) or ambiguity", False, f"{n} sequences of length <= {maxlen}, sizes {sizes}")
+    cc = _canvas_cursor_check()
     for _ in range(n):
         size = sizes[r.randrange(len(sizes))]
         setup = fill_setup(*size) if r.random() < 0.5 else b""
         seq = [toks[r.randrange(len(toks))] for _ in range(r.randint(2, maxlen))]
+        if not sh.mine():
+            continue
         for k in range(1, len(seq) + 1):
             status, detail = faithful_case(size, setup, [b for _, b in seq[:k]])
             names = [nm for nm, _ in seq[:k]]
+            key = (size, bool(setup), tuple(names))
             if status == "ok":
+                _canvas_cursor_case(cc, ("mixed", size, bool(setup), "|".join(names)), names, detail)
                 if k == len(seq):
-                    chk.case((size, setup, tuple(names)), True, None, True, sample={"size": list(size), "tokens": names})
+                    chk.case(key, True, None, True, sample={"size": list(size), "filled": bool(setup), "tokens": names})
                 continue
             if status == "fail":
                 detail["token_names"] = names
                 detail["family"] = "mixed"
                 detail["sig"] = f"{names[-1]}:{detail['aspect']}"
-                chk.case((size, setup, tuple(names)), False, detail, True, sig=detail["sig"])
+                chk.case(key, False, detail, True, sig=detail["sig"])
             else:
-                chk.case((size, setup, tuple(names)), True, None, k > 1, sample=None)
+                chk.count("stopped_at_ambiguity")
+                if k > 1:
+                    chk.case((size, bool(setup), tuple(names[:-1])), True, None, True)
             break
-    return chk
+    return [chk, cc]
 
 
 # --------------------------------------------------------------------------------------------------
@@ -701,7 +792,7 @@ def _sb_bytes(seq, tokens, w):
 
 
 def _chars(rows):
-    return ["".join(c[2].decode("latin-1") if isinstance(c[2], bytes) else c[0] for c in rw) for rw in rows]
+    return ["".join(c[2].decode("latin-1") for c in rw) for rw in rows]
 
 
 def _is_subsequence(a, b):
@@ -709,19 +800,23 @@ def _is_subsequence(a, b):
     return all(x in it for x in a)
 
 
-def scrollback_case(size, toks, views, resize_dance):
-    """Returns (status, kept_detail | None, view_detail | None)."""
+def scrollback_case(size, toks):
+    """Returns (status, scrolled?, kept_detail | None, view_detail | None);
+    status: ambiguous | diverged | done."""
     w, h = size
     ref = VT100(w, h)
     try:
         for t in toks:
             ref.feed(t)
     except (Ambiguous, OutOfSubset):
-        return "ambiguous", None, None
+        return "ambiguous", False, None, None
     data = b"".join(toks)
     want_off = ["".join(c[0] for c in rw) for rw in ref.scrolled_off_top]
     want_screen = ["".join(c[0] for c in rw) for rw in ref.rows()]
-    strict = (ESC + b"[2;") not in data  # only regions starting at row 1 were used
+    # Reading of the statement: rows that leave through the top row of the *screen* must be kept in
+    # order.  Rows scrolled out of a region that starts lower never were "off the top"; the statement
+    # does not say what happens to them, so for such histories only "contains, in order" is demanded.
+    strict = (ESC + b"[2;") not in data
     base = {"size": [w, h], "tokens": [t.hex() for t in toks], "stream": repr(data), "expected_scrollback": want_off, "expected_screen": want_screen}
     kept = view = None
     with encoding("utf8"):
@@ -731,15 +826,15 @@ def scrollback_case(size, toks, views, resize_dance):
             screen = _chars(tc.content())
             sb = _chars(tc.scrollback_buffer)
         except Exception as e:  # noqa: BLE001
-            return "fail", base | {"why": f"raised {type(e).__name__}: {e}", "sig": "raised"}, None
+            return "done", True, base | {"why": f"raised {type(e).__name__}: {e}", "sig": "raised"}, None
         if screen != want_screen or tuple(tc.term_cursor) != ref.cursor():
-            return "diverged", None, None  # a screen divergence: reported by the faithfulness checks
+            return "diverged", False, None, None  # a screen divergence: reported by the faithfulness checks
         if strict and sb != want_off:
-            kept = base | {"why": "scrollback differs from the lines scrolled off the top, in order", "got_scrollback": sb, "sig": "order"}
+            kept = base | {"why": "scrollback differs from the rows scrolled off the top, in order", "got_scrollback": sb, "sig": "order"}
         elif not strict and not _is_subsequence(want_off, sb):
-            kept = base | {"why": "the lines scrolled off the top are not all in the scrollback in order", "got_scrollback": sb, "sig": "order-subseq"}
-        if kept is None and resize_dance and h >= 2:
-            # shrinking pushes the top row into the scrollback, growing brings it back
+            kept = base | {"why": "the rows scrolled off the top are not all in the scrollback in order", "got_scrollback": sb, "sig": "order-subsequence"}
+        if kept is None and h >= 2:
+            # shrinking the height pushes the top row off the top, growing brings it back
             try:
                 tc.resize(w, h - 1)
                 sb2, scr2 = _chars(tc.scrollback_buffer), _chars(tc.content())
@@ -749,15 +844,15 @@ def scrollback_case(size, toks, views, resize_dance):
                 kept = base | {"why": f"resize raised {type(e).__name__}: {e}", "sig": "resize-raised"}
             else:
                 if sb2 != sb + screen[:1] or scr2 != screen[1:]:
-                    kept = base | {"why": f"after shrinking to height {h - 1} the top row should move to the end of the scrollback", "got_scrollback": sb2, "got_screen": scr2, "sig": "shrink"}
+                    kept = base | {"why": f"after shrinking to height {h - 1} the top row should be the newest scrollback row", "got_scrollback": sb2, "got_screen": scr2, "sig": "shrink"}
                 elif sb3 != sb or scr3 != screen:
-                    kept = base | {"why": "growing back should return the row from the scrollback", "got_scrollback": sb3, "got_screen": scr3, "sig": "grow"}
-        if views and kept is None:
-            combined = want_off + want_screen if strict else sb + want_screen
+                    kept = base | {"why": "growing back should return the newest scrollback row to the top of the screen", "got_scrollback": sb3, "got_screen": scr3, "sig": "grow"}
+        if kept is None:
+            combined = sb + want_screen
             try:
                 tc2, _ = make(w, h, True)
                 tc2.addstr(data)
-                for k in range(0, len(tc2.scrollback_buffer) + 2):
+                for k in range(len(tc2.scrollback_buffer) + 2):
                     tc2.scroll_buffer(reset=True)
                     tc2.scroll_buffer(up=True, lines=k)
                     kk = min(k, len(tc2.scrollback_buffer))
@@ -771,78 +866,94 @@ def scrollback_case(size, toks, views, resize_dance):
                         view = base | {"why": f"view scrolled back {k} lines: canvas cursor {cur} outside the canvas", "k": k, "sig": "view-cursor"}
                         break
             except Exception as e:  # noqa: BLE001
-                view = base | {"why": f"scrolled-back view raised {type(e).__name__}: {e}", "sig": "view-raised"}
-    return "done", kept, view
+                view = base | {"why": f"scrolled-back view raised {type(e).__name__}: {e}", "sig": f"view-raised {type(e).__name__}"}
+    return "done", bool(want_off) or kept is not None, kept, view
 
 
-def check_scrollback(tier, r):
+def check_scrollback(tier, seed, sh):
     q = tier == "quick"
-    scopes = [((2, 3), 4 if q else 5), ((3, 2), 3 if q else 5)]
-    kept = SigCheck("C15/scrollback-kept", "every token sequence (unique text, over-long text that autowraps, CRLF, LF, IND, NEL, RI, CUP, DECSTBM) up to the bound: scrollback_buffer equals, in order, the rows the reference scrolled off through row 1 (when a region not starting at row 1 was used: contains them in order); then shrinking the height by one moves the top row to the end of the scrollback and growing returns it; sequences whose screen already diverges from the reference are skipped (reported by faithful-*)", True, "; ".join(f"{s[0]}x{s[1]} len<={L}" for s, L in scopes))
-    view = SigCheck("C15/scrollback-view", "same histories: for every k in 0..len(scrollback)+1, scroll_buffer(up, k) then content() shows rows [-(h+k):-k] of scrollback+screen, exactly h rows, without raising; canvas cursor None or inside", True, kept.bound)
-    skipped = amb = 0
+    scopes = [((2, 3), 4 if q else 5), ((3, 2), 4 if q else 5)]
+    bound = "; ".join(f"{s[0]}x{s[1]} len<={L}" for s, L in scopes)
+    kept = SigCheck("C15/scrollback-kept", "every token sequence (unique text, over-long text that autowraps, CRLF, LF, IND, NEL, RI, CUP, DECSTBM) up to the bound: scrollback_buffer equals, in order, the rows the reference scrolled off through the top row (when a region starting at row 2 was used: contains them in order); then shrinking the height by one moves the top row to the end of the scrollback and growing returns it; sequences whose screen already diverges from the reference are skipped (reported by faithful-*); nontrivial = at least one row scrolled off", True, bound)
+    view = SigCheck("C15/scrollback-view", "same histories: for every k in 0..len(scrollback)+1, scroll_buffer(up, k) then content() shows rows [-(h+k):-k] of scrollback+screen, exactly h rows, without raising; canvas cursor None or inside", True, bound)
     for size, maxlen in scopes:
         tokens = _sb_tokens(*size)
         for L in range(1, maxlen + 1):
             for seq in itertools.product(range(len(tokens)), repeat=L):
+                if not sh.mine():
+                    continue
                 toks = _sb_bytes(seq, tokens, size[0])
-                status, kd, vd = scrollback_case(size, toks, True, True)
+                status, scrolled, kd, vd = scrollback_case(size, toks)
                 names = [tokens[i][0] for i in seq]
                 if status == "ambiguous":
-                    amb += 1
+                    kept.count("ambiguous")
                     continue
                 if status == "diverged":
-                    skipped += 1
+                    kept.count("skipped_screen_diverged")
                     continue
-                scrolled = kd is not None or vd is not None or status == "fail" or bool(VT100_off(size, toks))
                 for chk, d in ((kept, kd), (view, vd)):
                     if d is None:
-                        chk.case((size, seq), True, None, scrolled, sample={"size": list(size), "tokens": names})
+                        if chk is view and kd is not None:
+                            continue  # the view is only examined when the scrollback itself is right
+                        chk.case((size, seq), True, None, scrolled, sample={"size": list(size), "tokens": names} if scrolled else None)
                     else:
                         d["token_names"] = names
                         chk.case((size, seq), False, d, True, sig=d["sig"])
-    kept.extra = {"skipped_screen_diverged": skipped, "ambiguous": amb}
-    return kept, view
-
-
-def VT100_off(size, toks):
-    ref = VT100(*size)
-    for t in toks:
-        ref.feed(t)
-    return ref.scrolled_off_top
+    return [kept, view]
 
 
 # --------------------------------------------------------------------------------------------------
+def _plan(tier):
+    plan = [("check_robust_bytes", ()), ("check_robust_csi", ()), ("check_robust_huge", ()), ("check_robust_osc", ()), ("check_robust_charset", ()), ("check_view_shape", ())]
+    plan += [("check_faithful_family", (name,)) for name in families(tier)]
+    plan += [("check_faithful_mixed", ()), ("check_scrollback", ())]
+    return plan
+
+
+def _run_unit(arg):
+    fn, extra, tier, seed, i, n = arg
+    return globals()[fn](tier, seed, Shard(i, n), *extra)
+
+
 def run(tier="quick", seed=0):
-    r = rng(seed)
-    checks = []
-    checks.append(check_robust_bytes(tier, r))
-    checks.append(check_robust_csi(tier, r))
-    checks.append(check_robust_huge(tier, r))
-    checks.append(check_robust_osc(tier, r))
-    checks.append(check_robust_charset(tier, r))
-    checks.append(check_view_shape(tier, r))
-    fams = families(tier)
-    for name, (tokens, scopes) in fams.items():
-        checks.append(check_faithful_family(name, tokens, scopes))
-    checks.append(check_faithful_mixed(tier, r, fams))
-    checks.extend(check_scrollback(tier, r))
-    bound = "TermCanvas with a fake widget; robustness: 24-byte alphabet strings <= " + ("2 (+sampled 3)" if tier == "quick" else "3") + f" x sizes {SIZES} x resizes/chunkings x encodings, all CSI finals x parameter lists incl. 70000 and 10^9, OSC/charset/UTF-8 payloads; faithfulness: exhaustive token sequences per family (length 3-7 by family) + seeded random mixes vs spec/vt100.py; scrollback: token sequences <= " + ("4" if tier == "quick" else "5")
-    return {"checks": [c.result() for c in checks], "bound": bound}
+    t0 = time.time()
+    plan = _plan(tier)
+    cpus = os.cpu_count() or 1
+    procs = max(1, min(16, cpus))
+    if mp.current_process().daemon or threading.current_thread() is not threading.main_thread():
+        procs = 1
+    nshards = 1 if procs == 1 else procs
+    units = [(fn, extra, tier, seed, i, nshards) for fn, extra in plan for i in range(nshards)]
+    if procs == 1:
+        parts = [_run_unit(u) for u in units]
+    else:
+        with mp.get_context("fork").Pool(procs) as pool:
+            parts = pool.map(_run_unit, units, chunksize=1)
+    merged = {}
+    for part in parts:  # fixed (plan, shard) order
+        for chk in part:
+            if chk.name in merged:
+                merged[chk.name].absorb(chk)
+            else:
+                chk.t0 = min(chk.t0, t0)
+                merged[chk.name] = chk
+    bound = "TermCanvas with a fake widget; robustness: 24-byte alphabet strings <= " + ("2 (+sampled 3)" if tier == "quick" else "3") + f" x sizes {SIZES} x resizes/chunkings x encodings, all CSI finals x parameter lists incl. 70000 and 10^9, OSC/charset/UTF-8 payloads, scrolled-back view x resizes; faithfulness: exhaustive token sequences per family (length 3-7 by family) + seeded random mixes vs spec/vt100.py; scrollback: token sequences <= " + ("4" if tier == "quick" else "5")
+    return {"checks": [c.result() for c in merged.values()], "bound": bound}
 
 
 def replay(check_name, case):
     if "ops" in case:  # robustness history
         ops = [_op_unjson(o) for o in case["ops"]]
-        why, _ = run_history(case["enc"], tuple(case["size"]), case.get("focus", True), ops, case.get("timeout", 2.0))
-        return {"outcome": "confirmed" if why else "not-reproduced", "detail": {"why": why}}
+        probs = run_history(case["enc"], tuple(case["size"]), case.get("focus", True), ops, case.get("timeout", 2.0))
+        return {"outcome": "confirmed" if probs else "not-reproduced", "detail": {"why": "; ".join(w for _, w in probs), "sig": " + ".join(sorted(s for s, _ in probs))}}
     toks = [bytes.fromhex(t) for t in case["tokens"]]
     size = tuple(case["size"])
     if check_name.startswith("C15/scrollback"):
-        status, kd, vd = scrollback_case(size, toks, True, True)
+        status, _, kd, vd = scrollback_case(size, toks)
         d = kd if check_name.endswith("kept") else vd
-        if status == "fail":
-            d = kd
         return {"outcome": "confirmed" if d else "not-reproduced", "detail": d or {"status": status}}
     status, detail = faithful_case(size, bytes.fromhex(case.get("setup", "")), toks)
+    if check_name.endswith("canvas-cursor"):
+        bad = status == "ok" and detail["canvas_cursor"] != detail["expected_cursor"]
+        return {"outcome": "confirmed" if bad else "not-reproduced", "detail": {k: v for k, v in detail.items() if k != "python"} | {"status": status}}
     return {"outcome": "confirmed" if status == "fail" else "not-reproduced", "detail": {k: v for k, v in detail.items() if k != "python"} | {"status": status}}
